@@ -23,6 +23,7 @@ RULE = (
     "is lint-clean. Non-trivial: n >= 2 and some output at a step t >= 1 depends on a step-0 state "
     "input or an earlier step's input. Distinct by digest."
 )
+RULE += ' Added after seeded-change rounds 4-5: one BlackBox object per flop (equal, not identical); positional calls in the documented parameter order.'
 ASSUMPTIONS = [
     "reference simulator cgv.refsim",
     "non-D/Q flop output pins (qn) are left unconnected: the library documents that such pins are dropped",
